@@ -168,3 +168,20 @@ func StartSocket(id string, toml string) (*Server, error) {
 	time.Sleep(60 * time.Millisecond)
 	return s, nil
 }
+
+// StartWithCapture prepends the in-memory listener, one capture channel "cap" and a
+// catch-all filter to body (service and port sections) and starts the server.
+func StartWithCapture(body string, withToken bool) (*Server, *Capture, error) {
+	id := NextID()
+	toml := fmt.Sprintf("[listener]\ntype=\"verif-mem\"\nid=%q\n\n[channel.cap]\ntype=\"verif-capture\"\nid=%q\n\n[[filter]]\nchannel=[\"cap\"]\n\n%s", id, id+"-cap", body)
+	srv, err := Start(id, toml, withToken)
+	if err != nil {
+		return nil, nil, err
+	}
+	cap := GetCapture(id + "-cap")
+	if cap == nil {
+		srv.Stop()
+		return nil, nil, fmt.Errorf("capture channel was not constructed")
+	}
+	return srv, cap, nil
+}
